@@ -152,20 +152,20 @@ func runC33(c *an.Ctx) {
 	sg := an.GuardForFuncs("VerifyMultiSignature", vms)
 	n, w = success([]*an.Guard{sg})
 	c.Check(n == 1 && w == "", "guard|VerifyHeader|signatures", "a header is accepted only after VerifyMultiSignature succeeded", c.P.Rel(fn.Pos()), w)
-	for _, k := range an.CallsTo(fn, vms) {
+	for _, k := range an.CallsToReach(fn, vms) {
 		args := argsNoRecv(k.Common())
 		okM := false
 		if call, isC := args[2].(*ssa.Call); isC {
-			if bi, isB := call.Call.Value.(*ssa.Builtin); isB && bi.Name() == "len" && an.AccessPath(call.Call.Args[0]) == "header.Bookkeepers" {
+			if bi, isB := call.Call.Value.(*ssa.Builtin); isB && bi.Name() == "len" && an.AccessPathIn(fn, call.Call.Args[0]) == hdr+".Bookkeepers" {
 				okM = true
 			}
 		}
 		c.Check(okM, "same-subject|VerifyHeader|threshold-is-all-listed", "the number of signatures verified equals the number of listed bookkeepers (each listed peer must have signed; the 2/3 bound is on the list)", c.P.Rel(k.Pos()),
 			"the threshold passed to VerifyMultiSignature is "+args[2].String()+", not len(header.Bookkeepers): fewer signatures than counted peers would be verified")
-		c.Check(an.AccessPath(args[1]) == "header.Bookkeepers" && an.AccessPath(args[3]) == "header.SigData", "same-subject|VerifyHeader|keys-and-sigs", "keys and signatures verified are the header's own", c.P.Rel(k.Pos()), an.AccessPath(args[1])+"/"+an.AccessPath(args[3]))
+		c.Check(an.AccessPathIn(fn, args[1]) == hdr+".Bookkeepers" && an.AccessPathIn(fn, args[3]) == hdr+".SigData", "same-subject|VerifyHeader|keys-and-sigs", "keys and signatures verified are the header's own", c.P.Rel(k.Pos()), an.AccessPath(args[1])+"/"+an.AccessPath(args[3]))
 		okHash := false
 		if sl, isS := args[0].(*ssa.Slice); isS {
-			if call, isC := an.Origin(&ssa.UnOp{Op: token.MUL, X: sl.X}).(*ssa.Call); isC && call.Call.StaticCallee() != nil && call.Call.StaticCallee().Name() == "Hash" && an.AccessPath(recvOf(&call.Call)) == "header" {
+			if call, isC := an.Origin(&ssa.UnOp{Op: token.MUL, X: sl.X}).(*ssa.Call); isC && call.Call.StaticCallee() != nil && call.Call.StaticCallee().Name() == "Hash" && an.AccessPathIn(fn, recvOf(&call.Call)) == hdr {
 				okHash = true
 			}
 		}
